@@ -6,9 +6,9 @@ V = os.path.dirname(os.path.dirname(os.path.abspath(__file__)))
 sys.path.insert(0, os.path.join(V, "lib"))
 CONT = "Coq invariants over every event list accepted by the container/heap-manager acceptor (Container.step) + acceptance of the hooked library's event traces (sequential, perturbed, fault-injected scenarios) + executable monitor on the implementation's own trace"
 CLAIMED = {
- "C03": (CONT, "Acceptor checks every frame's content against the model (rows carry the bar's snapshot at render time); monitor: last frame shows every remaining bar in its final state, dropped bars absent, no output after Wait. Theorems on the final-state content are in Props/C03.v; known finding D9 (cancelled bar drawn running).", "7 (C03), 8 (D9)"),
- "C04": (CONT, "Line-level terminal replay of every frame (cursor-up = live rows, text above rows, nothing before the delay ends) + acceptor's exact frame prediction; the terminal path (pty) is the thorough tier's sweep.", "7 (C04), 8 (D6)"),
- "C05": (CONT, "Theorems Props/C05.v: a bar is in exactly one place or gone for good (NoDup over heap/queue/pushes/popped/parked/retired) for every accepted trace; a frame's bars are the heap at that cycle's iteration; requests are received in the order sent. Monitor: no bar twice, none vanishing and returning, added-before-cycle bars present.", "7 (C05), 8 (D5)"),
+ "C03": (CONT, "Acceptor checks every frame's content against the model (rows carry the bar's snapshot at render time); monitor: last frame shows every remaining bar in its final state, dropped bars absent, no output after Wait. Theorems in Props/C03.v (no output after Wait for every continuation; rows carry the render snapshot; cancelled only after a terminal frame; every bar once; removed bars never drawn again). Defect D9 (a bar cancelled while its actor is busy drawn running in the last frame) was found by a directed hold/release witness and is fixed in /repo.", "0.3 (D9), 0.7, 7 (C03)"),
+ "C04": (CONT, "Theorems in Props/C04.v over the line terminal Term.v: every frame replaces exactly the live rows of the one before, cursor-up = live rows, rows <= height, nothing before the delay ends, redraw exact on a window with a spare row (and refuted without), render keeps height-1 rows (constant re-read from the source). Tie: acceptor's exact frame prediction + line-level replay monitor + the pty family (real pseudo terminal 4-11 rows, bytes replayed on a VT of that size with scrollback). Defect D6 found by the pty family is fixed in /repo.", "0.3 (D6), 0.7, 7 (C04)"),
+ "C05": (CONT, "Theorems Props/C05.v: a bar is in exactly one place or gone for good (NoDup over heap/queue/pushes/popped/parked/retired) for every accepted trace; a frame's bars are the heap at that cycle's iteration; requests are received in the order sent; every heap request is one blocking send (re-read from the source). Monitor: no bar twice, none vanishing and returning, bars present unless they left legitimately.", "0.3 (D5), 0.7, 7 (C05)"),
  "C06": (CONT, "Theorems Props/C06.v: pops of a clean cycle are in non-increasing priority, flush order = pop order, immediate/lazy fix semantics, every iteration restores order; the priority queue itself (priority_queue.go under container/heap, PQueue.v) keeps heap order, multiset and index fields in every run, Pop returns a maximum, Fix restores order, tied to the code by the differential pq family (exact slice order incl. ties). Monitor on HM_POP priorities, row order and priority changes reaching the heap.", "7 (C06)"),
  "C07": ("Coq theorems (termination of the fill loops for every component width incl. zero; exact width of the bar body; Format reports its true width for every wrapper tree; truncation; row width <= terminal width for every decorator list) + differential correspondence of the extracted model on direct Fill calls and whole rows + width/UTF-8/termination monitor",
          "Theorems in coq/Props/C07.v over Filler.v/Decor.v for all widths, styles and int64 progress values; tie: 2500+ Fill calls and rows per quick run classified rune by rune and measured with go-runewidth.",
@@ -23,14 +23,14 @@ CLAIMED = {
          "Theorems in coq/Props/C11.v; the same bar-family correspondence projected to the two flags; the monitor (never both, stable under non-decreasing updates, exactly one after exit) runs on what the real getters returned.",
          "7 (C11), 8 (D1)"),
  "C12": ("Coq theorems on the width rendezvous as a transition system (never stuck, 2 steps per channel, common column width = maximum need) for every layout and interleaving + trace monitor on the library's width-exchange events",
-         "Props/C12.v over Sync.v for any number of bars/decorators; monitor checks each cycle's columns (membership by side and ordinal, distributed maximum, each member's received width, each decorator's needed width incl. W and extra space) on hooked traces with 0-3 synchronised decorators per side under perturbation.", "7 (C12)"),
- "C13": (CONT, "Acceptor predicts the text items of every frame (accepted writes in order, above rows); monitor: every accepted write emitted once, in order, above rows, before Wait returns, late Write = (0, ErrDone).", "7 (C13)"),
- "C14": (CONT, "Monitor on traces with cancel/Shutdown at every script position and under perturbation: every bar stopped and exactly one of completed/aborted, each shutdown listener (0-4 wrappers deep, also when it is a moving-average decorator) called once, notifier delivers once; acceptor checks BAR_EXIT/FINAL/NOTIFY against the model.", "7 (C14)"),
+         "Props/C12.v over Sync.v for any number of bars/decorators, plus ContainerMatrix: the heap manager's cached sync matrices are built from exactly the heap whenever a cycle's sync request has been served (never stale). Monitor checks each cycle's columns (membership by side and ordinal, distributed maximum, each member's received width, each decorator's needed width incl. W and extra space) on hooked traces with 0-3 synchronised decorators per side under perturbation; the acceptor checks the cache fields of every HM_SYNC.", "0.7, 7 (C12)"),
+ "C13": (CONT, "Theorems in Props/C13.v: accepted text = text written ++ text waiting, once and in order, in every state of every accepted trace; each Write call is [cursor-up] text* row*; nothing after Wait. Tie: the acceptor predicts the text items of every frame; the harness reuses one scratch buffer for all writes (a Write that returns before copying is seen); monitor: every accepted write emitted once, in order, above rows, before Wait returns, late Write = (0, ErrDone).", "0.7, 7 (C13)"),
+ "C14": (CONT, "Theorems in Props/C14.v: cancelled bar reports aborted, completed stays completed, the actor exits once, each shutdown listener is called once under any number of wrappers (Listen.v), the heap manager ends once, the notifier lists exactly the heap, cancellation is sticky. Tie: traces with cancel/Shutdown at every script position and under perturbation; acceptor checks BAR_EXIT/FINAL/NOTIFY against the model; monitor on stops, listener counts (0-4 wrappers deep) and the notifier.", "0.7, 7 (C14)"),
  "C15": ("fault injection at k-th Fill / extender call / output Write on hooked scenarios + monitor (error reported once, no frame afterwards, Wait returns, no hang, no leak); width-rendezvous theorems (Sync.v) for the mid-sync case",
-         "Monitor over the faults family (half perturbed); the defect found (bars stranded mid width-sync) is fixed in /repo; theorems are those of C12 plus the container invariants.", "7 (C15), 8 (D8)"),
- "C16": (CONT, "Leak probe after every scenario of the frames, sched and faults families (goroutines with a library frame after a settle period) + skeleton obligations regenerated from the source (translator).", "7 (C16)"),
- "C17": (CONT, "Monitor: successor never shown with its predecessor, shown in the cycle after the predecessor's last frame with its priority; acceptor models the queue map; the late / second successor histories are a known finding replayed as directed witnesses.", "7 (C17), 8 (D7)"),
- "C18": (CONT, "Monitor replays the output on a line-level terminal: every popped bar on screen exactly once, final, above live bars, in finishing order; acceptor checks popCount / pop priorities.", "7 (C18)"),
+         "Theorems in Props/C15.v over the acceptor: the error latches, cancels and no cycle begins again; no further frame in any continuation; reported at most once; the failing cycle is drained; width sync cannot wedge. Tie: faults family (k-th Fill / extender / Write fails; half perturbed; a second manual refresh pending during the failing cycle) replayed by the model + monitor (error line exactly once, no frame afterwards, Wait returns, no leak). Defect D8 is fixed in /repo.", "0.3 (D8), 0.7, 7 (C15)"),
+ "C16": (CONT, "Theorems in Props/C16.v: once the container goroutine has returned, the heap manager was ended and every actor has exited, only answers to client calls are possible, for ever (Dead states); each stop is final; the `go` statements of the library are exactly the 13 of GenChecks.expected_spawns and every service loop watches a done channel (tables regenerated from the source on every run). Tie: goroutine probe (runtime.Stack) after every scenario of the frames, sched, faults and late families.", "0.7, 7 (C16)"),
+ "C17": (CONT, "Theorems in Props/C17.v: a parked successor is in none of the places rows are drawn from; it stays parked until the flush of the predecessor's shutdown-1 frame; promotion inherits the priority, pushes with sync and retires the predecessor; and the refutation of the last sentence of the property (late successor never displayed in any continuation; second successor overwrites the first) with accepted witness runs. Tie: acceptor models queueBars; monitor on rows; the two directed witnesses are replayed against the code on every run and reported as the open known findings D7a / D7b.", "0.3 (D7), 0.7, 7 (C17)"),
+ "C18": (CONT, "Theorems in Props/C18.v: next pop priority at the shutdown-1 flush, rows counted and bar retired at shutdown-2, never drawn again, popped rows persist on the line terminal, pop priorities monotone, no-pop bars keep their place, rows in priority order. Tie: acceptor checks popCount / pop priorities; monitor replays the output on a line-level terminal (every popped bar on screen exactly once, final, above live bars, in finishing order).", "0.7, 7 (C18)"),
  "C19": ("Coq theorems over the proxy model (transparency, Close forwarding, fast path iff, bytes accounted = capped sum for every chunking, every sample delivered) + differential correspondence on scripted readers/writers + independent monitor",
          "Props/C19.v; 1500 scripted cases per quick run over all 16 shapes of wrapped value x ewma depth x total class.", "7 (C19)"),
  "C20": ("Coq theorems (largest fitting unit, printed digits = nearest decimal of the float, finite quotient for every int64, h/m/s exact below 60 h, estimators conserve time, positive samples always delivered) + differential correspondence with exact string prediction",
